@@ -350,6 +350,11 @@ def _ops_of(stmts, payload_var: str, where: str) -> list[str]:
                 and all(isinstance(b, (ast.Assign, ast.Expr, ast.Raise)) for b in st.body) \
                 and not any(isinstance(b, ast.Raise) for b in st.body[:-1]):
             ops.append(".assertValid")
+        elif isinstance(st, ast.If) and isinstance(st.test, ast.BoolOp) and isinstance(st.test.op, ast.And) \
+                and _norm(st.test.values[0]) == "not signature_valid" and not st.orelse \
+                and isinstance(st.body[-1], ast.Raise) and "PacketDecodingError" in _norm(st.body[-1]):
+            # `if not signature_valid and <other condition>: raise`: the check is skipped when the other condition is false
+            ops.append(".assertWeakened")
         elif isinstance(st, ast.Assert) and _norm(st.test) == "signature_valid":
             # an assert statement is not executed under python -O / PYTHONOPTIMIZE: translated (the guard rejects it)
             ops.append(".assertDebug")
@@ -528,11 +533,25 @@ def translate_on_packet() -> str:
             or names.get("handler", 0) != 1:
         raise TranslatorError(f"Community.on_packet: data/source_address/msg_id/handler are re-bound between the matched "
                               f"statements: {dict((k, names.get(k, 0)) for k in ('data', 'source_address', 'msg_id', 'handler'))}")
+    # whose liveness is refreshed before any check: every assignment to `probable_peer` is classified by what it reads
+    sources = []
+    for n in ast.walk(fn):
+        if isinstance(n, ast.Assign) and any(isinstance(t, ast.Name) and t.id == "probable_peer" for t in n.targets):
+            used = {x.id for x in ast.walk(n.value) if isinstance(x, ast.Name)}
+            if "data" in used or "packet" in used:
+                sources.append(".datagramContent")
+            elif _norm(n.value) == "self.network.get_verified_by_address(source_address)":
+                sources.append(".sourceAddress")
+            else:
+                raise TranslatorError(f"Community.on_packet: unknown source of probable_peer: {_norm(n.value)[:80]}")
+    found["liveness"] = sources  # type: ignore[assignment]
     # the two numbers are READ from the source (slice bound of the prefix comparison, index of the msg-id byte); the
     # theorems conclude `data.take 22 = o.pfx` / `data[22]`, so another number breaks their proofs
     return (f"/-- translated from Community.on_packet: `if self._prefix != data[:{found['prefix_len']}] …: return`, "
             f"`msg_id = data[{found['msg_off']}]` -/\n"
-            f"def prefixLen : Nat := {found['prefix_len']}\ndef msgIdOffset : Nat := {found['msg_off']}")
+            f"def prefixLen : Nat := {found['prefix_len']}\ndef msgIdOffset : Nat := {found['msg_off']}\n"
+            "/-- translated from Community.on_packet: what the `probable_peer` whose last_response is refreshed is looked up by -/\n"
+            f"def livenessSources : List LivenessSource := [{', '.join(found['liveness'])}]")
 
 
 # ------------------------------------------------------------------------------------------------ F. raw discovery handler
